@@ -329,7 +329,7 @@ FUNCTIONS['VLOOKUP'] = wrap_ufunc(
 
 
 def xtranspose(array):
-    return np.transpose(array).view(Array)
+    return np.transpose(np.asarray(array, object)).view(Array)
 
 
 FUNCTIONS['TRANSPOSE'] = wrap_func(xtranspose)
